@@ -116,9 +116,16 @@ func vh_time_duration() {
 // duration column: three zig-zag vints (months, days, nanoseconds)
 // vSmallVints restricts months/days to one-byte vints in the quick tier; every vint
 // length of the single-vint kernels is covered by vh_vint_enc / vh_vint_dec.
+// vint_small: 1 = months and days one-byte vints, 2 = only days, 3 = only months, 0 = neither restricted
+// (all 5 x 5 x 9 length combinations in one run: does not finish for the struct cell, see DESIGN 13.6)
 func vSmallVints(mo, d int32) {
-	if vBound("vint_small") == 1 {
+	switch vBound("vint_small") {
+	case 1:
 		vAssume(mo >= -64 && mo <= 63 && d >= -64 && d <= 63)
+	case 2:
+		vAssume(d >= -64 && d <= 63)
+	case 3:
+		vAssume(mo >= -64 && mo <= 63)
 	}
 }
 
